@@ -128,6 +128,10 @@ Proof.
     destruct (IHp Hwf (map_env rho m) drop (closed_map_env _ _ _ Cm Hsub)) as [H1 H2].
     split; auto. apply NM_app; split; auto. apply NM_obs_c; auto.
   - (* Ren *) cbn [wf] in Hwf. apply IHp; auto.
+  - (* ParT *)
+    apply closed_app in C as [Ci Co]. cbn [wf] in Hwf. destruct (IHp Hwf rho drop Ci) as [H1 H2].
+    split; [|exact H2]. apply NM_app; split; auto.
+    destruct (wave p rho drop); [apply NM_obs_f; apply closed_kept; auto|apply NM_nil].
 Qed.
 
 Definition obs_closed (p : pt) : Prop :=
@@ -167,6 +171,8 @@ Proof.
     rewrite subset_in in Hsub. cbn [obs]. apply NM_app; split; [apply NM_obs_c; auto|].
     apply IHp; auto. apply closed_map_env; auto.
   - (* Ren *) cbn [pnames] in C. cbn [wf] in Hwf. cbn [obs]. apply IHp; auto.
+  - (* ParT *) cbn [pnames] in C. apply closed_app in C as [Ci Co]. cbn [wf] in Hwf. cbn [obs].
+    apply NM_app; split; [apply NM_obs_f; apply closed_kept; auto|apply IHp; auto].
 Qed.
 
 Lemma verdict_not_missing : forall p rho drop, wf p -> closed rho (pnames p) -> verdict p rho drop <> Err Missing.
